@@ -87,6 +87,7 @@ func c01Alphabet() []*sessmc.Event {
 		}
 	}
 	a = append(a, sessmc.EvSeqResetT(0, -1, "", false), sessmc.EvSeqResetT(0, 2, "", false), sessmc.EvSeqResetT(-2, -1, "", false))
+	a = append(a, sessmc.EvSeqReset(1, 0, "Y", false)) // early gap fill that fills nothing
 	a = append(a, sessmc.EvIn("2", 0, false, fixscan.Field{7, "1"}, fixscan.Field{16, "0"}))
 	a = append(a, sessmc.EvIn("5", 0, false), sessmc.EvIn("3", 0, false, fixscan.Field{45, "1"}))
 	a = append(a, sessmc.EvLogon(0, 0, ""), sessmc.EvLogon(1, 0, ""), sessmc.EvLogon(0, 1, "Y"))
@@ -94,7 +95,6 @@ func c01Alphabet() []*sessmc.Event {
 	a = append(a, sessmc.EvDisconnect(), sessmc.EvConnect(), sessmc.EvFlush())
 	return a
 }
-
 
 func c01Configs(quick bool) []sessmc.Config {
 	var out []sessmc.Config
